@@ -135,7 +135,8 @@ def gen_config(rng, allow=('ne', 'W', 'nodes', 'cuts', 'goback'), cls=None):
           'W': (rng.choice([0, 0, 1, 2, 3]) if 'W' in allow else 0),
           'dist_noise': rng.choice([None, 0.5, 2.0]) if cls == 'distance' else None,
           'dist_noise_ne': rng.choice([None, None, 1.0, 3.0]) if cls == 'distance' else None,
-          'restrained_ne': (rng.random() < 0.7) if cls == 'distance' else None}
+          'restrained_ne': (rng.random() < 0.7) if cls == 'distance' else None,
+          'ne_max': None}        # non_emitting_states_maxnb (None: the library's default of 100); set by the callers
     return cf
 
 
@@ -244,8 +245,12 @@ def build_matcher(mp, cf, conc):
         if cf.get('dist_noise_ne') is not None:
             kw['dist_noise_ne'] = conc.dscale(cf['dist_noise_ne'])
         kw['restrained_ne'] = bool(cf.get('restrained_ne', True))
-        return DistanceMatcher(mp, **kw)
-    return SimpleMatcher(mp, **kw)
+        m = DistanceMatcher(mp, **kw)
+    else:
+        m = SimpleMatcher(mp, **kw)
+    if cf.get('ne_max'):
+        m.non_emitting_states_maxnb = int(cf['ne_max'])       # public attribute bounding the depth of a non-emitting run
+    return m
 
 
 def st_of(x, conc):
@@ -395,7 +400,7 @@ def spec_cf(cf):
     mdi = md if cf['max_dist_init'] is None else fx(cf['max_dist_init'])
     mlp = [-BIG, 1] if cf['min_prob_norm'] is None else [fx(math.log(cf['min_prob_norm'])), 1]
     return {'onlyEdges': cf['only_edges'], 'ne': cf['ne'], 'W': cf['W'], 'maxDist': md, 'maxDistInit': mdi,
-            'minlp': mlp, 'neLen': fx(math.log(0.75)), 'neMax': 100, 'secondOrder': bool(cf['avoid_goingback']),
+            'minlp': mlp, 'neLen': fx(math.log(0.75)), 'neMax': int(cf.get('ne_max') or 100), 'secondOrder': bool(cf['avoid_goingback']),
             'slack': 8, 'tables': False, 'oracle': False, 'debug': False}
 
 
